@@ -226,6 +226,18 @@ func runCodec(t *testing.T, prop string, c01, c02 bool) *ev.Rec {
 		classOfTree(c, ctx.Name, m.Nodes)
 		codecCase(c, ctx, m, c.R.IntN(4), c01, c02, "")
 	})
+	// the same oracle from four goroutines that share the dictionaries (every connection's reader
+	// decodes with the Server's Parser, every handler builds answers with it)
+	rec.Suite("parallel-messages", n/8, func(c *ev.Case) {
+		ctx := ctxs[c.I%len(ctxs)]
+		c.Class("parallel-messages/%s", ctx.Name)
+		inParallel(rec, c, 4, func(gc *ev.Case, g int) {
+			for k := 0; k < 2 && !gc.Failed(); k++ {
+				m := drawMsg(gc, ctx, stdOpts(gc.R))
+				codecCase(gc, ctx, m, gc.R.IntN(4), c01, c02, "")
+			}
+		})
+	})
 	// messages with one large AVP: around the 64 KiB steps of the body reader and beyond
 	bigLens := []int{65507, 65508, 65528, 65536, 70001, 131044, 131052, 131073, 196608, 300000, 1 << 20}
 	rec.Suite("big-avps", len(bigLens)*rec.N(2, 20), func(c *ev.Case) {
